@@ -1,5 +1,707 @@
-"""C10 part 2 (placeholder; filled in below)."""
+"""C10 part 2: C10.4 .. C10.12."""
+from ..export import AnalysisBroken
+from ..ir import strip_casts, const_of, walk, show, kids, path_of
+from ..graph import (find_path, ret_class, ev_dominates, control_deps_transitive, cond_facts, loops)
+from ..guard import var_of, nonneg_edges, zero_edges_of_call
+from ..fd import FD, Top
+from .. import df
+from .common import consumed
+
+MEMCPY = ('memcpy', '__builtin_memcpy', '__builtin___memcpy_chk', 'memmove')
+
+# allocator -> (how the object is delivered, releaser)
+PAIRS = {
+    'malloc': ('ret', 'free'), 'calloc': ('ret', 'free'),
+    'jls_buf_alloc': ('ret', 'jls_buf_free'),
+    'jls_tmap_alloc': ('ret', 'jls_tmap_free'),
+    'jls_bkt_initialize': ('ret', 'jls_bkt_finalize'),
+    'eventflag_create': ('ret', 'eventflag_destroy'),
+    'jls_fsr_open': (0, 'jls_fsr_close'),
+    'jls_wr_ts_open': (0, 'jls_wr_ts_close'),
+    'jls_raw_open': (0, 'jls_raw_close'),
+    'jls_wr_open': (0, 'jls_wr_close'),
+    'jls_rd_open': (0, 'jls_rd_close'),
+    'jls_twr_open': (0, 'jls_twr_close'),
+}
 
 
 def run(ctx, sess, P, G, T, reach, roots, exc):
-    pass
+    ctx.rule('C10.4', 'allocation growth is checked: no result of jls_buf_realloc is discarded')
+    ctx.rule('C10.5', 'read at extent: after memcpy(d, p, n) the byte p[n] is not read unconditionally (the caller provided n bytes)')
+    ctx.rule('C10.6', 'table extents: every non-constant subscript of a global constant table is bounded below the table extent')
+    ctx.rule('C10.7', 'resources: every allocator result stored in a field has a matching release of that field reachable from a close/free API; a local resource is released or handed over on every exit')
+    ctx.rule('C10.8', 'grow-to-fit: buffer growth is strictly increasing and overflow-free, and the size requested on TOO_BIG covers the quantity the reader compared')
+    ctx.rule('C10.9', 'reconstruction makes progress: no output block is filled without being counted')
+    ctx.rule('C10.10', 'window gates: negative start, start+length beyond the signal and non-positive increment return errors before the caller\'s buffer is touched')
+    ctx.rule('C10.11', 'tainted divisor: a divisor derived from a definition parameter is a non-zero constant, directly max(x, c>0), or dominated by a non-zero test')
+    ctx.rule('C10.12', 'no read of uninitialised instance memory: every field of a malloc\'ed instance that is read anywhere is initialised before the instance is published')
+    r4(ctx, P)
+    r5(ctx, P, reach)
+    r6(ctx, P, G, T, reach)
+    r7(ctx, P, reach, exc)
+    r8(ctx, P)
+    r9(ctx, P)
+    r10(ctx, P)
+    r11(ctx, P)
+    r12(ctx, P)
+
+
+def r4(ctx, P):
+    n = 0
+    for fn, ev in P.callers().get('jls_buf_realloc', []):
+        n += 1
+        ctx.saw(fn, 1)
+        ok, how = consumed(fn, ev)
+        ctx.ob('C10.4', ok, fn.name, 'result of jls_buf_realloc()', ev.where(), how)
+    ctx.floor('jls_buf_realloc call sites', n, 8)
+
+
+def r5(ctx, P, reach):
+    n = 0
+    for name in sorted(reach):
+        fn = P.functions.get(name)
+        if fn is None:
+            continue
+        for mc in fn.calls(MEMCPY):
+            if len(mc.args) < 3:
+                continue
+            sv = var_of(fn, mc.args[1])
+            nv = var_of(fn, mc.args[2])
+            if sv is None or nv is None:
+                continue
+            n += 1
+            cd_m = control_deps_transitive(fn, mc.block.id)
+            # loads  sv[nv]
+            for b in fn.blocks.values():
+                for ev in b.events:
+                    if ev.e is None:
+                        continue
+                    for nd in walk(ev.e):
+                        if nd.get('op') == 'sub' and var_of(fn, nd['k'][0]) == sv and var_of(fn, nd['k'][1]) == nv:
+                            # is it a load (not the store target)?
+                            if ev.k == 'store' and strip_casts(ev.store_parts()[0]).get('id') == nd.get('id'):
+                                continue
+                            # same values of sv / nv as at the memcpy: no store to either between
+                            def changed(e2):
+                                if e2.k in ('store', 'decl'):
+                                    l0 = strip_casts(e2.store_parts()[0])
+                                    return l0.get('op') == 'ref' and l0.get('name') in (sv, nv)
+                                return False
+                            w = find_path(fn, mc, lambda e2, facts: 'target' if e2 is ev else ('stop' if changed(e2) else None), refine=False)
+                            same_arm = ev_dominates(mc, ev) or w is not None
+                            if not same_arm:
+                                continue
+                            cd_l = control_deps_transitive(fn, b.id)
+                            extra = cd_l - cd_m
+                            ctx.ob('C10.5', bool(extra), fn.name, 'load %s after memcpy(.., %s, %s)' % (show(nd), sv, nv), ev.where(),
+                                   'conditional on %s' % sorted(extra)[:2] if extra else
+                                   'the copy asserts the source holds %s bytes; %s[%s] is read whenever the copy runs (one byte past the caller\'s buffer when it is exactly that long)' % (nv, sv, nv))
+    ctx.floor('memcpy(dst, var, var) sites examined', n, 5)
+
+
+def r6(ctx, P, G, T, reach):
+    from .c10 import IndexRule, items_of
+    IR = IndexRule(ctx, P, G, T)
+    n = 0
+    for name in sorted(reach):
+        fn = P.functions.get(name)
+        if fn is None:
+            continue
+        seen = set()
+        for e, ev, b in items_of(fn):
+            for nd in walk(e):
+                if nd.get('op') != 'sub' or 'extent' not in nd or nd['id'] in seen:
+                    continue
+                seen.add(nd['id'])
+                base = strip_casts(nd['k'][0])
+                if base.get('op') != 'ref' or base.get('rk') != 'global':
+                    continue
+                if const_of(strip_casts(nd['k'][1])) is not None:
+                    continue
+                n += 1
+                se = fn.sub_event(nd['id'])
+                if se is not None:
+                    ev, b = se, se.block
+                ok, how = IR.safe(fn, nd['k'][1], ev, b, nd['extent'])
+                ctx.ob('C10.6', bool(ok), fn.name, 'table %s' % show(nd)[:60], '%s:%d' % (fn.file, nd.get('ln', 0)),
+                       'extent %d: %s' % (nd['extent'], how))
+    ctx.floor('table subscripts', n, 4)
+
+
+# --------------------------------------------------------------------------- resources
+
+def r7(ctx, P, reach, exc):
+    for a, (how, rel) in PAIRS.items():
+        if a in ('malloc', 'calloc'):
+            continue
+        P.fn(a)
+        P.fn(rel)
+    close_roots = sorted(f.name for f in P.all_functions() if f.api and (f.name.endswith('_close') or f.name.endswith('_free')))
+    close_reach = P.reachable_from(close_roots)
+    # ---- field owners
+    releases = {}      # (rec, field) -> [(fn, ev)]
+    for rel in set(r for (_, r) in PAIRS.values()):
+        for fn, ev in P.callers().get(rel, []):
+            a0 = strip_casts(ev.args[0]) if ev.args else None
+            if a0 is not None and a0.get('op') == 'member':
+                releases.setdefault((a0.get('rec'), a0['field'], rel), []).append((fn, ev))
+            elif a0 is not None:
+                # through an alias local:  p = X->f; free(p)
+                p = fn.path(a0)
+                if p is not None and p.last_field():
+                    releases.setdefault((None, p.last_field(), rel), []).append((fn, ev))
+    nf = 0
+    for fn in P.all_functions():
+        for ev in fn.calls():
+            if ev.callee not in PAIRS:
+                continue
+            how, rel = PAIRS[ev.callee]
+            target = None
+            if how == 'ret':
+                # stored to a field?
+                for e2 in ev.block.events[ev.idx + 1:]:
+                    if e2.k in ('store', 'decl'):
+                        lhs, rhs, o = e2.store_parts()
+                        if rhs is not None and strip_casts(rhs).get('id') == ev.e.get('id'):
+                            l0 = strip_casts(lhs)
+                            if l0.get('op') == 'member':
+                                target = l0
+                            break
+            else:
+                a = strip_casts(ev.args[how])
+                if a.get('op') == 'un' and a['o'] == '&':
+                    inner = strip_casts(a['k'][0])
+                    if inner.get('op') == 'member':
+                        target = inner
+            if target is None:
+                continue
+            nf += 1
+            ctx.saw(fn, 1)
+            key = (target.get('rec'), target['field'], rel)
+            got = releases.get(key, []) + releases.get((None, target['field'], rel), [])
+            got_reach = [(f2, e2) for (f2, e2) in got if f2.name in close_reach]
+            ctx.ob('C10.7', bool(got_reach), fn.name, 'owner of %s.%s (%s)' % (target.get('rec'), target['field'], ev.callee), ev.where(),
+                   'released by %s in %s' % (rel, got_reach[0][0].name) if got_reach else
+                   ('%s(<%s.%s>) is never called on a path from a close/free API: the object allocated here is leaked' % (rel, target.get('rec'), target['field'])))
+    ctx.floor('field-owned allocations', nf, 12)
+    # ---- local resources
+    nl = 0
+    for fn in P.all_functions():
+        for ev in fn.calls():
+            if ev.callee not in PAIRS:
+                continue
+            how, rel = PAIRS[ev.callee]
+            var = None
+            starts = []
+            if how == 'ret':
+                for e2 in ev.block.events[ev.idx + 1:]:
+                    if e2.k in ('store', 'decl'):
+                        lhs, rhs, o = e2.store_parts()
+                        if rhs is not None and strip_casts(rhs).get('id') == ev.e.get('id'):
+                            l0 = strip_casts(lhs)
+                            if l0.get('op') == 'ref' and l0.get('rk') == 'local':
+                                var = l0['name']
+                                starts = [(e2, frozenset([(var, 'ne', 0)]))]
+                            break
+            else:
+                a = strip_casts(ev.args[how])
+                if a.get('op') == 'un' and a['o'] == '&':
+                    inner = strip_casts(a['k'][0])
+                    if inner.get('op') == 'ref' and inner.get('rk') == 'local':
+                        var = inner['name']
+                        ze = zero_edges_of_call(fn, ev)
+                        for (bid, lab) in ze:
+                            b2 = fn.blocks[bid]
+                            for i, (s, l2) in enumerate(b2.succs):
+                                if l2 == lab:
+                                    starts.append(((b2, i), frozenset()))
+                        if not ze:
+                            starts = [(ev, frozenset())]
+            if var is None:
+                continue
+            nl += 1
+            ctx.saw(fn, 1)
+
+            def on_event(e2, facts, var=var, rel=rel):
+                if any(v == var and k == 'eq' and c == 0 for (v, k, c) in facts):
+                    return 'stop'
+                if e2.k == 'call':
+                    if e2.callee == rel or (rel == 'free' and e2.callee in ('free', 'realloc')):
+                        if any(var_of(fn, a) == var for a in e2.args):
+                            return 'stop'
+                    # wrappers that release their argument
+                    g = P.functions.get(e2.callee)
+                    if g is not None and any(var_of(fn, a) == var for a in e2.args) and releases_param(P, g, [i for i, a in enumerate(e2.args) if var_of(fn, a) == var][0], rel):
+                        return 'stop'
+                if e2.k in ('store', 'decl'):
+                    lhs, rhs, o = e2.store_parts()
+                    l0 = strip_casts(lhs)
+                    if rhs is not None and var_of(fn, rhs) == var and l0.get('op') != 'ref':
+                        return 'stop'       # handed over: stored into a field / through an out-parameter
+                    if rhs is not None and var_of(fn, rhs) == var and l0.get('op') == 'ref' and l0.get('rk') != 'local':
+                        return 'stop'
+                if e2.k == 'ret':
+                    if e2.e is not None and var_of(fn, e2.e) == var:
+                        return 'stop'
+                    return 'target'
+                return None
+            w = None
+            for st, facts in starts:
+                w = find_path(fn, st, on_event, start_facts=facts)
+                if w is not None:
+                    break
+            k = '%s:%s' % (fn.name, var)
+            if w is not None and k in exc:
+                ctx.note('exception %s: %s' % (k, exc[k]))
+                continue
+            ctx.ob('C10.7', w is None, fn.name, 'local `%s` from %s()' % (var, ev.callee), ev.where(),
+                   'released or handed over on every exit' if w is None else
+                   'a return is reachable with `%s` neither released (%s) nor handed over' % (var, rel), w.render() if w else None)
+    ctx.floor('local resources', nl, 8)
+
+
+_rp_memo = {}
+
+
+def releases_param(P, g, i, rel, depth=0):
+    key = (g.name, i, rel)
+    if key in _rp_memo:
+        return _rp_memo[key]
+    _rp_memo[key] = False
+    if i >= len(g.params) or depth > 3:
+        return False
+    v = g.params[i]['name']
+    for ev in g.calls():
+        if ev.callee == rel or (rel == 'free' and ev.callee == 'free'):
+            if any(var_of(g, a) == v for a in ev.args):
+                _rp_memo[key] = True
+                return True
+        h = P.functions.get(ev.callee)
+        if h is not None:
+            for j, a in enumerate(ev.args):
+                if var_of(g, a) == v and releases_param(P, h, j, rel, depth + 1):
+                    _rp_memo[key] = True
+                    return True
+    return False
+
+
+# --------------------------------------------------------------------------- growth
+
+def r8(ctx, P):
+    fd = FD(P)
+    g = P.fn('jls_buf_realloc')
+    ctx.saw(g)
+    # G1: the loop that grows
+    lps = loops(g)
+    n = 0
+    for hdr, body in lps.items():
+        hb = g.blocks[hdr]
+        # variables compared in conditions of the loop
+        cvars = set()
+        for bid in body:
+            c = g.blocks[bid].cond
+            if c is not None:
+                cvars |= set(nd['name'] for nd in walk(c) if nd.get('op') == 'ref' and nd.get('rk') == 'local')
+        for bid in body:
+            for ev in g.blocks[bid].events:
+                if ev.k != 'store':
+                    continue
+                lhs, rhs, o = ev.store_parts()
+                l0 = strip_casts(lhs)
+                if l0.get('op') != 'ref' or l0.get('name') not in cvars:
+                    continue
+                n += 1
+                ok = False
+                why = 'update `%s`' % show(ev.e)
+                if o in ('*=', '<<=') and rhs is not None and const_of(rhs) is not None and const_of(rhs) >= (2 if o == '*=' else 1):
+                    ok = True
+                elif o == '+=' and rhs is not None and const_of(rhs) is not None and const_of(rhs) > 0:
+                    ok = True
+                elif o == '=' and rhs is not None:
+                    r0 = strip_casts(rhs)
+                    if r0.get('op') == 'bin' and r0['o'] in ('*', '<<') and var_of(g, r0['k'][0]) == l0['name'] and const_of(r0['k'][1]) is not None and const_of(r0['k'][1]) >= (2 if r0['o'] == '*' else 1):
+                        ok = True
+                    elif var_of(g, r0) is not None and var_of(g, r0) != l0['name']:
+                        ok = True      # = need
+                if not ok:
+                    why += ' is not strictly increasing and overflow-free (a self-product is stationary at 0/1, squares 2^20 to 2^40 and wraps to 0)'
+                ctx.ob('C10.8', ok, g.name, 'growth step', ev.where(), why)
+    ctx.floor('growth loop updates in jls_buf_realloc', n, 1)
+    # G2: what the payload reader compares when it answers TOO_BIG
+    rp = P.fn('jls_raw_rd_payload')
+    too_big = P.enum_consts.get('JLS_ERROR_TOO_BIG')
+    need_fn = None
+    for r in rp.returns():
+        if r.e is not None and const_of(strip_casts(r.e)) == too_big:
+            for (bid, label) in control_deps_transitive(rp, r.block.id):
+                c = rp.blocks[bid].cond
+                e = strip_casts(c) if c else None
+                if e is not None and e.get('op') == 'bin' and e['o'] in ('>', '>=', '<', '<='):
+                    for side in e['k']:
+                        v = var_of(rp, side)
+                        if v is None:
+                            continue
+                        defs, _ = df.reaching_defs(rp, v, rp.blocks[bid], len(rp.blocks[bid].events))
+                        for d in defs:
+                            rhs = d.store_parts()[1]
+                            if rhs is not None and strip_casts(rhs).get('op') == 'call':
+                                need_fn = strip_casts(rhs)['callee']
+    if need_fn is None:
+        raise AnalysisBroken('TOO_BIG guard of jls_raw_rd_payload not found')
+    nf = P.fn(need_fn)
+    # overhead = max over residues of need(L) - L   (set-of-constants evaluation of the helper)
+    over = set()
+    for L in range(1, 65):
+        try:
+            over.add(fd.call(nf, [L]) - L)
+        except Top:
+            raise AnalysisBroken('cannot evaluate %s on constants' % need_fn)
+    overhead = max(over)
+    ctx.note('C10.8: %s(L) - L over residues = %s (max %d)' % (need_fn, sorted(over), overhead))
+    # every site that grows a buffer and then reads a payload into it
+    n2 = 0
+    for fn in P.all_functions():
+        for rd in fn.calls(('jls_raw_rd', 'jls_raw_rd_payload')):
+            mx = rd.args[2] if rd.callee == 'jls_raw_rd' else rd.args[1]
+            mp = fn.path(strip_casts(mx))
+            if mp is None or mp.last_field() != 'alloc_size':
+                continue
+            bufp = tuple(mp[:-1])
+            for gr in fn.calls('jls_buf_realloc'):
+                gp = fn.path(gr.args[0])
+                if gp is None or tuple(gp) != bufp:
+                    continue
+                n2 += 1
+                ctx.saw(fn, 1)
+                req = strip_casts(gr.args[1])
+                # requested = f(payload_length): evaluate with payload_length bound to L
+                lens = [nd for nd in walk(req) if nd.get('op') == 'member' and nd.get('field') == 'payload_length']
+                bad = []
+                if not lens:
+                    ctx.ob('C10.8', False, fn.name, 'grow request before reading a payload', gr.where(), 'request %s does not depend on the payload length' % show(req))
+                    continue
+                lp = str(path_of(lens[0]))
+                for L in range(1, 65):
+                    try:
+                        got = fd.ev(fn, req, {lp: L, str(fn.path(lens[0])): L})
+                    except Top:
+                        bad = ['request %s not evaluable' % show(req)]
+                        break
+                    need = fd.call(nf, [L])
+                    if got < need:
+                        bad.append('L=%d: requests %d, reader needs %d' % (L, got, need))
+                ctx.ob('C10.8', not bad, fn.name, 'grow request before reading a payload', gr.where(),
+                       'request %s >= %s(L) for every residue' % (show(req), need_fn) if not bad else
+                       'request `%s` is smaller than what %s compares (%s): TOO_BIG is answered again (retry loop spins / chunk is dropped) for payloads within %d bytes of the buffer size; %s' %
+                       (show(req), 'jls_raw_rd_payload', need_fn, overhead, bad[0]))
+    ctx.floor('grow-then-read sites', n2, 2)
+
+
+def r9(ctx, P):
+    f = P.fn('reconstruct_omitted_chunk')
+    ctx.saw(f)
+    fills = [ev for ev in f.calls() if ev.callee in ('memset', '__builtin_memset', '__builtin___memset_chk', 'construct_f32', 'construct_f64')]
+    n = 0
+    for ev in fills:
+        # destination derives from the output block pointer `d`
+        n += 1
+
+        def on_event(e2, facts):
+            if e2.k == 'store':
+                lhs, rhs, o = e2.store_parts()
+                l0 = strip_casts(lhs)
+                if l0.get('op') == 'member' and l0.get('field') == 'entry_count' and o in ('+=',):
+                    return 'stop'
+            if e2.k == 'ret' and ret_class(f, e2, facts) in ('zero', 'unknown'):
+                return 'target'
+            return None
+        w = find_path(f, ev, on_event)
+        ctx.ob('C10.9', w is None, f.name, 'fill %s is counted' % show(ev.e)[:40], ev.where(),
+               'entry_count advanced' if w is None else
+               'the block is filled and success returned with entry_count unchanged (0): the caller\'s copy loop makes no progress and computes a negative size',
+               w.render() if w else None)
+    ctx.floor('fill sites in reconstruct_omitted_chunk', n, 5)
+
+
+def r10(ctx, P):
+    for fname, start, length_like in (('jls_core_fsr', 'start_sample_id', 'data_length'), ('jls_core_fsr_statistics', 'start_sample_id', 'data_length')):
+        f = P.fn(fname)
+        ctx.saw(f)
+        data = [p['name'] for p in f.params if p['name'] == 'data']
+        if not data:
+            raise AnalysisBroken('%s has no `data` parameter' % fname)
+        # first uses of the caller's buffer: stores through it, or passing it / a pointer derived from it to a callee
+        derived = {'data'}
+        for _ in range(3):
+            for ev in f.stores():
+                lhs, rhs, o = ev.store_parts()
+                l0 = strip_casts(lhs)
+                if rhs is not None and l0.get('op') == 'ref' and any(nd.get('op') == 'ref' and nd.get('name') in derived for nd in walk(rhs)) and (l0.get('t', ev.t or '') or '').startswith('p'):
+                    derived.add(l0['name'])
+        uses = []
+        for ev in f.events():
+            if ev.k == 'call' and any(nd.get('op') == 'ref' and nd.get('name') in derived for a in ev.args for nd in walk(a)):
+                uses.append(ev)
+            elif ev.k == 'store':
+                l0 = strip_casts(ev.store_parts()[0])
+                if l0.get('op') in ('sub', 'un', 'member') and any(nd.get('op') == 'ref' and nd.get('name') in derived for nd in walk(l0)):
+                    uses.append(ev)
+        if not uses:
+            raise AnalysisBroken('%s: no use of the output buffer found' % fname)
+
+        def unguarded(san):
+            for u in uses:
+                w = find_path(f, 'entry', lambda e2, facts: 'target' if e2 is u else None,
+                              edge_ok=lambda b, s, label: (b.id, label) not in san, refine=False)
+                if w is not None:
+                    return w
+            return None
+        # (1) start >= 0
+        w = unguarded(nonneg_edges(f, start))
+        ctx.ob('C10.10', w is None, fname, 'negative start rejected before the buffer is used', f.where(),
+               'gate present on every path' if w is None else 'the output buffer is reachable with a negative start', w.render() if w else None)
+        # (2) end <= samples : a compare X > samples (samples filled by jls_core_fsr_length(&samples)) whose T edge errors
+        lenvars = set()
+        for c in f.calls('jls_core_fsr_length'):
+            a = strip_casts(c.args[2])
+            if a.get('op') == 'un' and a['o'] == '&':
+                lenvars.add(strip_casts(a['k'][0]).get('name'))
+        san = set()
+        for b in f.blocks.values():
+            e = strip_casts(b.cond) if b.cond else None
+            if e is None or e.get('op') != 'bin' or e['o'] not in ('>', '>=', '<', '<='):
+                continue
+            l, r = e['k']
+            lv, rv = var_of(f, l), var_of(f, r)
+            o = e['o']
+            other = None
+            if rv in lenvars:
+                other = l
+            elif lv in lenvars:
+                other = r
+                o = {'>': '<', '<': '>', '>=': '<=', '<=': '>='}[o]
+            if other is None:
+                continue
+            if not df.derives(f, other, lambda nd: nd.get('op') == 'ref' and nd.get('name') == start, *df.cond_pos(b), must=False):
+                continue
+            if not df.derives(f, other, lambda nd: nd.get('op') == 'ref' and nd.get('name') == length_like, *df.cond_pos(b), must=False):
+                continue
+            san.add((b.id, 'F' if o in ('>', '>=') else 'T'))
+        w = unguarded(san) if san else 'no compare of start+length with the signal length'
+        ctx.ob('C10.10', w is None, fname, 'window end beyond the signal rejected before the buffer is used', f.where(),
+               'gate present on every path' if w is None else ('%s' % (w if isinstance(w, str) else 'the output buffer is reachable without the end-of-signal check')),
+               w.render() if (w is not None and not isinstance(w, str)) else None)
+        # (3) increment > 0 where there is one
+        if any(p['name'] == 'increment' for p in f.params):
+            san = set()
+            for b in f.blocks.values():
+                e = strip_casts(b.cond) if b.cond else None
+                if e is None or e.get('op') != 'bin':
+                    continue
+                l, r = e['k']
+                if var_of(f, l) == 'increment' and const_of(r) is not None:
+                    c, o = const_of(r), e['o']
+                    if (o == '<=' and c >= 0) or (o == '<' and c >= 1):
+                        san.add((b.id, 'F'))
+                    if (o == '>' and c >= 0) or (o == '>=' and c >= 1):
+                        san.add((b.id, 'T'))
+            w = unguarded(san) if san else 'no test of increment'
+            ctx.ob('C10.10', w is None, fname, 'non-positive increment rejected before the buffer is used', f.where(),
+                   'gate present' if w is None else 'increment <= 0 reaches the statistics loop (division / no progress)',
+                   w.render() if (w is not None and not isinstance(w, str)) else None)
+
+
+def divisor_ok(P, fn, nd, ev, block, fd, widths_env=None):
+    """nd: bin node with / or %.  Returns (ok, how)."""
+    d = strip_casts(nd['k'][1])
+    c = const_of(d)
+    if c is not None:
+        return c != 0, 'constant %d' % c
+    # directly max(x, c)
+    if d.get('op') == 'call':
+        g = P.functions.get(d.get('callee'))
+        if g is not None and len(kids(d)) == 2:
+            cs = [const_of(a) for a in kids(d)]
+            if any(x is not None and x > 0 for x in cs) and _is_max(P, g, fd):
+                return True, 'directly %s(x, c>0)' % d['callee']
+    v = var_of(fn, d)
+    if v is not None:
+        # dominating non-zero test
+        san = set()
+        for b in fn.blocks.values():
+            for label in ('T', 'F'):
+                for (var, kind, cv) in cond_facts(fn, b.cond, label):
+                    if var == v and kind == 'ne' and cv == 0:
+                        san.add((b.id, label))
+        if san:
+            if ev is not None:
+                w = find_path(fn, 'entry', lambda e2, facts: 'target' if e2 is ev else None, edge_ok=lambda b, s, label: (b.id, label) not in san, refine=False)
+            else:
+                w = find_path(fn, 'entry', lambda e2, facts: None, on_block_end=lambda b, facts: 'target' if b is block else None,
+                              edge_ok=lambda b, s, label: (b.id, label) not in san, refine=False)
+            if w is None:
+                return True, 'dominated by a non-zero test of %s' % v
+        # local whose every reaching definition is a non-zero constant or max(x, c>0) directly
+        if d.get('op') == 'ref' and d.get('rk') == 'local':
+            pos = (ev.block, ev.idx) if ev is not None else (block, len(block.events))
+            defs, entry = df.reaching_defs(fn, v, *pos)
+            if defs and not entry:
+                oks = []
+                for dd in defs:
+                    rhs = dd.store_parts()[1]
+                    if rhs is None:
+                        oks.append(False)
+                        continue
+                    r0 = strip_casts(rhs)
+                    if const_of(r0) is not None and const_of(r0) != 0:
+                        oks.append(True)
+                    elif r0.get('op') == 'call' and P.functions.get(r0.get('callee')) is not None and len(kids(r0)) == 2 and \
+                            any(const_of(a) is not None and const_of(a) > 0 for a in kids(r0)) and _is_max(P, P.functions[r0['callee']], fd):
+                        oks.append(True)
+                    else:
+                        oks.append(False)
+                if all(oks):
+                    return True, 'every reaching definition of %s is a non-zero constant or max(x, c>0)' % v
+    return False, 'divisor `%s` can be zero' % show(d)
+
+
+_max_memo = {}
+
+
+def _is_max(P, g, fd):
+    if g.name in _max_memo:
+        return _max_memo[g.name]
+    ok = True
+    try:
+        for a in (0, 1, 5, 4294967295):
+            for b in (0, 1, 7, 4294967295):
+                if fd.call(g, [a, b]) != max(a, b):
+                    ok = False
+    except Top:
+        ok = False
+    _max_memo[g.name] = ok
+    return ok
+
+
+def r11(ctx, P):
+    fd = FD(P)
+    n = 0
+    for fname in ('jls_core_signal_def_align', 'round_up_to_multiple'):
+        f = P.fn(fname)
+        ctx.saw(f)
+        seen = set()
+        for b in f.blocks.values():
+            items = [(ev.e, ev) for ev in b.events if ev.e is not None]
+            if b.cond is not None:
+                items.append((b.cond, None))
+            for e, ev in items:
+                for nd in walk(e):
+                    if nd.get('op') == 'bin' and nd['o'] in ('/', '%', '/=', '%=') and nd['id'] not in seen:
+                        seen.add(nd['id'])
+                        if nd.get('t', '').startswith('f'):
+                            continue
+                        n += 1
+                        ok, how = divisor_ok(P, f, nd, ev, b, fd)
+                        if not ok and fname == 'round_up_to_multiple':
+                            # parameter: every caller must pass a non-zero divisor
+                            d = strip_casts(nd['k'][1])
+                            pi = [i for i, p in enumerate(f.params) if p['name'] == d.get('name')]
+                            if pi:
+                                bad = []
+                                for cf, cev in P.callers().get(fname, []):
+                                    fake = {'op': 'bin', 'o': '/', 'k': [cev.args[0], cev.args[pi[0]]], 'id': -1}
+                                    ok2, how2 = divisor_ok(P, cf, fake, cev, cev.block, fd)
+                                    if not ok2:
+                                        bad.append('%s: %s' % (cev.where(), how2))
+                                ok = not bad
+                                how = 'every caller passes a non-zero divisor' if ok else 'caller passes a divisor that can be 0: ' + '; '.join(bad[:2])
+                        ctx.ob('C10.11', ok, f.name, 'divisor of `%s`' % show(nd)[:60], '%s:%d' % (f.file, nd.get('ln', 0)), how)
+    ctx.floor('divisions in definition normalisation', n, 5)
+
+
+def r12(ctx, P):
+    n = 0
+    for fn in P.all_functions():
+        for ev in fn.calls('malloc'):
+            # bound to a struct pointer local
+            var = None
+            rec = None
+            for e2 in ev.block.events[ev.idx + 1:]:
+                if e2.k in ('store', 'decl'):
+                    lhs, rhs, o = e2.store_parts()
+                    if rhs is not None and any(nd.get('id') == ev.e.get('id') for nd in walk(rhs)):
+                        l0 = strip_casts(lhs)
+                        t = l0.get('t') or e2.t or ''
+                        if l0.get('op') == 'ref' and t.startswith('p:s:'):
+                            var, rec = l0['name'], t[4:]
+                    break
+            if var is None or rec not in P.records:
+                continue
+            n += 1
+            ctx.saw(fn, 1)
+            R = P.records[rec]
+            # publication points: store of var through an out-parameter / return
+            pubs = []
+            for e2 in fn.events():
+                if e2.k == 'store':
+                    lhs, rhs, o = e2.store_parts()
+                    l0 = strip_casts(lhs)
+                    if rhs is not None and var_of(fn, rhs) == var and l0.get('op') == 'un' and l0['o'] == '*':
+                        pubs.append(e2)
+                if e2.k == 'ret' and e2.e is not None and var_of(fn, e2.e) == var:
+                    pubs.append(e2)
+            # fields loaded anywhere in the program
+            loaded = fields_loaded(P, rec)
+            whole = [c for c in fn.calls(('memset', '__builtin_memset', '__builtin___memset_chk')) if var_of(fn, c.args[0]) == var]
+            for fld in R['fields']:
+                fname_ = fld['name']
+                if fname_ not in loaded:
+                    continue
+                if fld['t'].startswith('a?'):
+                    continue          # flexible array member: storage handed to its own initialiser
+                inits = []
+                for e2 in fn.events():
+                    if e2.k == 'store':
+                        l0 = strip_casts(e2.store_parts()[0])
+                        p = path_of(l0)
+                        if p is not None and p.root == var and len(p) >= 3 and p[2] == '.' + fname_:
+                            if fld['t'].startswith('a') and len(p) > 3:
+                                continue      # a single element store does not initialise an array
+                            inits.append(e2)
+                    if e2.k == 'call':
+                        for a in e2.args:
+                            a0 = strip_casts(a)
+                            inner = strip_casts(a0['k'][0]) if a0.get('op') == 'un' and a0['o'] == '&' else a0
+                            p = path_of(inner)
+                            if p is not None and p.root == var and len(p) == 3 and p[2] == '.' + fname_ and \
+                                    (e2.callee in ('memset', '__builtin_memset', '__builtin___memset_chk') or e2.callee.endswith('_init')):
+                                inits.append(e2)
+                ok = bool(whole) or (bool(inits) and all(any(ev_dominates(i, p_) for i in inits) for p_ in pubs))
+                ctx.ob('C10.12', ok, fn.name, 'field %s.%s initialised before publication' % (rec, fname_), ev.where(),
+                       'initialised' if ok else
+                       '%s is allocated with malloc and `%s` is read by %s but never initialised in %s before the instance is handed out' %
+                       (rec, fname_, sorted(loaded[fname_])[:2], fn.name))
+    ctx.floor('malloc\'ed instances', n, 2)
+
+
+def fields_loaded(P, rec):
+    out = {}
+    for fn in P.all_functions():
+        for b in fn.blocks.values():
+            items = [(ev.e, ev) for ev in b.events if ev.e is not None]
+            if b.cond is not None:
+                items.append((b.cond, None))
+            for e, ev in items:
+                skip = None
+                if ev is not None and ev.k == 'store':
+                    lhs, rhs, o = ev.store_parts()
+                    if o == '=':
+                        # the stored-to lvalue chain is not a load of its last field
+                        l0 = strip_casts(lhs)
+                        while l0 is not None and l0.get('op') == 'sub':
+                            l0 = strip_casts(l0['k'][0])
+                        skip = l0.get('id') if l0 is not None else None
+                for nd in walk(e):
+                    if nd.get('op') == 'member' and nd.get('rec') == rec and nd.get('id') != skip:
+                        out.setdefault(nd['field'], set()).add(fn.name)
+    return out
